@@ -1,0 +1,11 @@
+//go:build verif
+
+package raftlog
+
+// VerifGeometry returns the compile-time geometry of the entry and meta files (unexported
+// constants) so that a test harness follows it instead of repeating the numbers: slots per entry
+// file, offset of the data area, size cap of an entry file, size of the meta file, and the
+// offsets of the hard state, of the snapshot index/term pair and of the snapshot in it.
+func VerifGeometry() (slots, dataOffset, maxFileSize, metaSize, hardStateOff, snapIndexOff, snapOff int) {
+	return maxNumEntries, logFileOffset, maxLogFileSize, metaFileSize, hardStateOffset, snapshotIndex, snapshotOffset
+}
